@@ -81,12 +81,14 @@ theorem run_frame (ρ : List FunDef) : ∀ (f : Nat) (j : Job) (s : St), Frame s
       split
       · split
         · ihf ih (.node b) s
-          have key : ∀ u : St, Frame u (match u.objAt il with
-               | .int j => run ρ f (.cforL il hi b) (u.setObj il (.int (j + 1)))
+          have key : ∀ u : St, Frame u (match u.val il with
+               | .int j => if (u.cell il).const then ((.thrown (.evalErr .assignConst), u) : R) else run ρ f (.cforL il hi b) (u.setVal il (.int (j + 1)))
                | _ => (.thrown (.evalErr .other), u)).2 := by
             intro u
             split
-            · exact (Frame.of_eq (s := u) (t := u.setObj il _) rfl).trans (ih _ _)
+            · split
+              · exact Frame.refl u
+              · exact (Frame.of_eq (s := u) (t := u.setVal il _) rfl).trans (ih _ _)
             · exact Frame.refl u
           cases oo <;> (try simp only []) <;> first | exact hh.trans (key _) | exact hh
         · exact frame_allocVal _ _ _ _
@@ -336,7 +338,7 @@ theorem run_frame (ρ : List FunDef) : ∀ (f : Nat) (j : Job) (s : St), Frame s
         · exact frame_alloc _ _ _ _
         · rename_i s2 h2
           have e2 := (frame_alloc t (.int lo) false false).trans (Frame.addObject h2)
-          ihf ih (.cforL t.objs.length hi b) s2
+          ihf ih (.cforL (t.allocV (.int lo)).1 hi b) s2
           cases oo <;> (try simp only []) <;> first | exact e2.trans hh | exact (e2.trans hh).trans (frame_allocVal _ _ _ _)
       | brk => exact Frame.refl s
       | cont => exact Frame.refl s
